@@ -445,8 +445,22 @@ class SClient(NullHandler):
         if self.upg and self.upg.get('waiting') == 'poll' and \
                 self.poll_out == 0:
             self._upg_next()
+        # a poll that is answered at once with nothing but NOOP, again and
+        # again (an upgrade the server believes to be in progress): after 300
+        # in a row the client slows down to one poll per 64 ticks, which
+        # keeps the cost of the run bounded and changes nothing else
+        if req.status == 200 and req.resp_body in (b'6', b'') and \
+                req.t_resp is not None and req.t_issue is not None and \
+                req.t_resp - req.t_issue <= 4 * TICK:
+            self.noop_run = getattr(self, 'noop_run', 0) + 1
+        else:
+            self.noop_run = 0
         if self.autopoll and req.tag == 'poll':
-            self.k.after(self.poll_gap, self._autopoll_guard, 'c.repoll')
+            gap = self.poll_gap
+            if getattr(self, 'noop_run', 0) > 300:
+                gap = max(gap, 64 * TICK)
+                self.h.world.probe('noop_storm_backoff')
+            self.k.after(gap, self._autopoll_guard, 'c.repoll')
 
     def _autopoll_guard(self):
         if not self.stopped:
